@@ -583,6 +583,45 @@ let fixed_cases () : string list =
       "c2"; "d866"; "d86682"; "9f01"; "bf01ff"; "a10102ff" ]
   @ List.map (fun h -> "pdl " ^ h) ["80"; "9fff"; "d9010280"; "d901029f0102ff"; "82d87980a0"; "9f1817ff"; "82ff"; "81f6"; "a0"; "d90103" ^ "80"]
 
+(* the tag state of the body decides whether NEW witness sets are written with tag 258: bodies whose top-level
+   sets and whose nested sets (pool owners of a pool registration, members to remove of an update-committee
+   action) are tagged differently *)
+let untag258 = function ITag (t, x) when bz_of_n t = BZ.of_int 258 -> x | x -> x
+let settag (b : bool) (x : item) : item = if b then ITag (n_of_int 258, untag258 x) else untag258 x
+let rec set_nth (l : item list) (i : int) (f : item -> item) : item list =
+  match l with [] -> [] | x :: t -> if i = 0 then f x :: t else x :: set_nth t (i - 1) f
+let retag_body (outer : bool) (npool : bool) (ncomm : bool) (body : item) : (item * bool * bool) option =
+  let found = ref false and pool = ref false and comm = ref false in
+  match body with
+  | IMap (d, kvs) ->
+    let kvs' = List.map (fun (k, v) ->
+        match k with
+        | IUint kn ->
+          let kk = int_of_n kn in
+          if kk = 0 || kk = 13 || kk = 14 || kk = 18 then (k, settag outer v)
+          else if kk = 4 then
+            (match untag258 v with
+             | IArray (da, certs) ->
+               let certs' = List.map (fun c -> match c with
+                   | IArray (dc, (IUint t :: rest)) when int_of_n t = 3 && List.length rest >= 7 ->
+                     found := true; pool := true; IArray (dc, IUint t :: set_nth rest 6 (settag npool))
+                   | c -> c) certs in
+               (k, settag outer (IArray (da, certs')))
+             | _ -> (k, v))
+          else if kk = 20 then
+            (match untag258 v with
+             | IArray (da, props) ->
+               let props' = List.map (fun p -> match p with
+                   | IArray (dp, [dep; ra; IArray (dg, (IUint t :: prev :: rem :: tl)); anchor]) when int_of_n t = 4 ->
+                     found := true; comm := true; IArray (dp, [dep; ra; IArray (dg, IUint t :: prev :: settag ncomm rem :: tl); anchor])
+                   | p -> p) props in
+               (k, settag outer (IArray (da, props')))
+             | _ -> (k, v))
+          else (k, v)
+        | _ -> (k, v)) kvs in
+    if !found then Some (IMap (d, kvs'), !pool, !comm) else None
+  | _ -> None
+
 let gen_mode seed tier out =
   st := Int64.of_string seed;
   ignore (next ());
@@ -612,6 +651,29 @@ let gen_mode seed tier out =
      | 1 -> Printf.fprintf oc "txn %s %s %d %s %s\n" (hex_of_string (body ^ junk)) (hex_of_string wits) (if valid = "\xf5" then 1 else 0)
               (match aux with Some a -> hex_of_string a | None -> "~") (String.concat " " (gen_ops ~wits (body ^ junk) true))
      | _ -> Printf.fprintf oc "fb %s\n" (hex_of_string (if chance 20 then mutate body else body ^ junk)))
+  done;
+  (* stream 3b: the tag state of the body (top-level vs nested sets) decides the form of NEW witness sets;
+     every found body is emitted in the eight tagged/untagged combinations of (top-level, pool owners, committee) *)
+  let n_pool = ref 0 and n_comm = ref 0 and tries = ref 0 in
+  while (!n_pool < 3 * scale || !n_comm < 3 * scale) && !tries < 3000 * scale do
+    incr tries;
+    all_fields := true;
+    let it = gen_item (transactionBody depth) (3 + below 4) in
+    all_fields := false;
+    (match retag_body false false false it with
+     | Some (_, pool, comm) when (pool && !n_pool < 3 * scale) || (comm && !n_comm < 3 * scale) ->
+       if pool then incr n_pool; if comm then incr n_comm;
+       List.iter (fun (o, np, nc) ->
+           match retag_body o np nc it with
+           | Some (b, _, _) ->
+             let body = nstr quiet b in
+             let ops = [Printf.sprintf "av:%s:%s" (rand_hex 32) (rand_hex 64);
+                        Printf.sprintf "ab:%s:%s:%s:a0" (rand_hex 32) (rand_hex 64) (rand_hex 32)] in
+             if chance 50 then Printf.fprintf oc "tx %s %s\n" (hex_of_string ("\x84" ^ body ^ "\xa0\xf5\xf6")) (String.concat " " ops)
+             else Printf.fprintf oc "txb %s %s\n" (hex_of_string body) (String.concat " " ops)
+           | None -> ()) [(false, true, false); (false, false, true); (false, false, false); (true, false, false);
+                          (true, true, true); (false, true, true); (true, true, false); (true, false, true)]
+     | _ -> ())
   done;
   (* stream 4: datums *)
   for i = 1 to 260 * scale do
